@@ -582,6 +582,19 @@ def strtok_r (m : Mem) (str : Option Ptr) (delim : Ptr) (save : Option Ptr) (fue
 def strtok (m : Mem) (str : Option Ptr) (delim : Ptr) («static» : Option Ptr) (fuel : Nat) :
     Option (Mem × Option Ptr × Option Ptr) := strtok_r m str delim «static» fuel
 
+/-- a history of strtok_r calls on ONE string (round 3): the first call passes
+`str`, every later one NULL; call i uses the delimiter string at `ds[i]`.  The
+save pointer is threaded from call to call exactly as `*saveptr` (resp. the
+static of `strtok`) is.  Returns the memory, the final save pointer and the
+result of every call. -/
+def strtokCalls (m : Mem) (fuel : Nat) : List Ptr → Option Ptr → Option Ptr →
+    Option (Mem × Option Ptr × List (Option Ptr))
+  | [], _, save => some (m, save, [])
+  | d :: ds, str, save => do
+      let (m, save, r) ← strtok_r m str d save fuel
+      let (m, save, rs) ← strtokCalls m fuel ds none save
+      pure (m, save, r :: rs)
+
 /-- historical: without the fix the save pointer is left untouched on the
 "no token" exit -/
 def strtok_rOrig (m : Mem) (str : Option Ptr) (delim : Ptr) (save : Option Ptr) (fuel : Nat) :
@@ -657,6 +670,49 @@ def strlwr (m : Mem) (s : Ptr) (fuel : Nat) : Option (Mem × Ptr) := do
 def strupr (m : Mem) (s : Ptr) (fuel : Nat) : Option (Mem × Ptr) := do
   let m ← caseLoop 97 122 (-32) fuel m s
   pure (m, s)
+
+/-! ### igris/util/ctype.h + compat/libc/include/ctype.h (round 3)
+  `static inline int igris_isX(int c)`: a C `&&` / `||` / comparison yields the
+  `int` 0 or 1, so the exact return value is modelled.  The libc names
+  (`isalpha` …, `tolower`, `toupper`) are one-line wrappers of these.
+  `isascii` / `toascii` are macros over `(unsigned char)(c)`. -/
+
+/-- `(c >= 'a' && c <= 'f') || (c >= 'A' && c <= 'F')` -/
+def isxdigitHelperI (c : Int) : Int := if (97 ≤ c ∧ c ≤ 102) ∨ (65 ≤ c ∧ c ≤ 70) then 1 else 0
+/-- `c == ' ' || c == '\t'` -/
+def isblankI (c : Int) : Int := if c = 32 ∨ c = 9 then 1 else 0
+/-- `c == ' ' || c == '\t' || c == '\r' || c == '\n' || c == '\f' || c == '\v'` -/
+def isspaceI (c : Int) : Int := if c = 32 ∨ c = 9 ∨ c = 13 ∨ c = 10 ∨ c = 12 ∨ c = 11 then 1 else 0
+/-- `c >= '0' && c <= '9'` -/
+def isdigitI (c : Int) : Int := if 48 ≤ c ∧ c ≤ 57 then 1 else 0
+/-- `igris_isdigit(c) || igris_isxdigit_helper(c)` -/
+def isxdigitI (c : Int) : Int := if isdigitI c ≠ 0 ∨ isxdigitHelperI c ≠ 0 then 1 else 0
+/-- `c >= 'A' && c <= 'Z'` -/
+def isupperI (c : Int) : Int := if 65 ≤ c ∧ c ≤ 90 then 1 else 0
+/-- `c >= 'a' && c <= 'z'` -/
+def islowerI (c : Int) : Int := if 97 ≤ c ∧ c ≤ 122 then 1 else 0
+/-- `(c >= 'a' && c <= 'z') || (c >= 'A' && c <= 'Z')` -/
+def isalphaI (c : Int) : Int := if (97 ≤ c ∧ c ≤ 122) ∨ (65 ≤ c ∧ c ≤ 90) then 1 else 0
+/-- `igris_isalpha(c) || igris_isdigit(c)` -/
+def isalnumI (c : Int) : Int := if isalphaI c ≠ 0 ∨ isdigitI c ≠ 0 then 1 else 0
+/-- `igris_isalpha(c) || igris_isdigit(c) || (c >= ' ' && c <= '~')` -/
+def isprintI (c : Int) : Int := if isalphaI c ≠ 0 ∨ isdigitI c ≠ 0 ∨ (32 ≤ c ∧ c ≤ 126) then 1 else 0
+/-- `igris_islower(c) ? c + ('A'-'a') : c` — written through the predicate, as the header does
+(`toupperI` above is the same function with the range test inlined) -/
+def toupperC (c : Int) : Int := if islowerI c ≠ 0 then c + (65 - 97) else c
+/-- `igris_isupper(c) ? c + ('a'-'A') : c` -/
+def tolowerC (c : Int) : Int := if isupperI c ≠ 0 then c + (97 - 65) else c
+/-- `#define isascii(c) (((unsigned)(c))<=0x7f)` (after `fix: isascii converts to unsigned, not to unsigned char`);
+`int` and `unsigned` are 32 bits wide -/
+def isasciiI (c : Int) : Int := if (BitVec.ofInt 32 c).toNat ≤ 0x7f then 1 else 0
+/-- historical: `#define isascii(c) (((unsigned char)(c))<=0x7f)` -/
+def isasciiOrig (c : Int) : Int := if (toChar c).toNat ≤ 0x7f then 1 else 0
+/-- `#define toascii(c) (((unsigned char)(c))&0x7f)` -/
+def toasciiI (c : Int) : Int := ((toChar c).toNat &&& 0x7f : Nat)
+
+/-- the platform constants the model embeds (op `plat2`): `sizeof(long)`,
+`sizeof(size_t)`, `sizeof(int)`, `'A'`, `'Z'`, `'a'`, `'z'`, `'a' - 'A'` -/
+def platConsts : List Nat := [BLOCK_SZ, 8, 4, 65, 90, 97, 122, 32]
 
 /-! ### building a memory from buffers (driver, witnesses) -/
 
